@@ -218,11 +218,34 @@ func runC08(r *Report) {
 		}
 		for _, d := range Calls(f, false, "Delete") {
 			kc, _ := CallOfValue(d.Common().Args[0])
+			var siteBlocks []*ssa.BasicBlock
+			if kc == nil {
+				// the key is a parameter of this helper: it is the client index when a caller passes one
+				if kp, isP := stripValue(d.Common().Args[0]).(*ssa.Parameter); isP && kp.Parent() == f {
+					for i, q := range f.Params {
+						if q != kp {
+							continue
+						}
+						for _, site := range staticCallSites(r.P, f) {
+							if i < len(site.Call.Args) {
+								if sk, _ := CallOfValue(site.Call.Args[i]); sk != nil && CalleeOf(sk).Name == "makeClientKey" {
+									kc = sk
+									siteBlocks = append(siteBlocks, site.Block())
+								}
+							}
+						}
+					}
+				}
+			}
 			if kc == nil || CalleeOf(kc).Name != "makeClientKey" {
 				continue
 			}
 			ok := false
-			for _, ft := range Facts(d.Block()) {
+			facts := Facts(d.Block())
+			for _, sb := range siteBlocks {
+				facts = append(facts, Facts(sb)...)
+			}
+			for _, ft := range facts {
 				if c, isC := stripValue(ft.Cond).(*ssa.Call); isC && ft.Pol && CalleeOf(c).Fn != nil {
 					for i := range c.Call.Args {
 						if i < len(CalleeOf(c).Fn.Params) && summaryTrueImpliesEq(CalleeOf(c).Fn, CalleeOf(c).Fn.Params[i]) {
